@@ -149,7 +149,8 @@ Fixpoint data_eqb (a b : tree) {struct a} : bool :=
 Definition all_leaves (cs : list tree) : bool := forallb is_leaf cs.
 
 (* documents the loaders can produce: mapping keys are leaves and pairwise different (under ==),
-   mappings contain only key/value pairs, pairs occur only inside mappings *)
+   mappings contain only key/value pairs, pairs occur only inside mappings; the binary exponent of a numeric
+   leaf (float.as_integer_ratio's denominator) is non-negative *)
 Fixpoint keys_distinct (eqb : tree -> tree -> bool) (cs : list tree) : bool :=
   match cs with
   | [] => true
@@ -158,9 +159,9 @@ Fixpoint keys_distinct (eqb : tree -> tree -> bool) (cs : list tree) : bool :=
 
 Fixpoint wf (t : tree) : bool :=
   match t with
-  | Leaf _ => true
+  | Leaf l => 0 <=? lexp l
   | Lst _ _ cs => forallb (fun c => negb (is_kvp c) && wf c) cs
-  | Kvp _ k v => is_leaf k && negb (is_kvp v) && wf v
+  | Kvp _ k v => is_leaf k && wf k && negb (is_kvp v) && wf v
   | MSet _ cs => forallb (fun c => is_kvp c && wf c) cs && keys_distinct node_eqb cs
   | FDict cs => forallb (fun c => is_kvp c && wf c) cs && keys_distinct node_eqb cs
   end.
